@@ -242,6 +242,29 @@ theorem xts_inplace_eq (f E2 : Bytes → Bytes) (hf : ∀ x, x.length = 16 → (
     rw [hout] at this
     exact this
 
+/-- **arguments unmodified**: a non-panicking call changes no arena byte outside dst[:len(src)] — in
+    particular not src when the windows are disjoint, nor anything behind dst[:len(src)] -/
+theorem cryptMem_outside (f E2 : Bytes → Bytes) (hf : ∀ x, x.length = 16 → (f x).length = 16)
+    (hE2 : ∀ x, (E2 x).length = 16) (mem : Bytes) (dst src : Sl) (sector : UInt64) (mem' : Bytes)
+    (hd : dst.off + dst.len ≤ mem.length) (hs : src.off + src.len ≤ mem.length)
+    (h : cryptMem f E2 mem dst src sector = .ok mem') :
+    mem'.take dst.off = mem.take dst.off ∧ mem'.drop (dst.off + src.len) = mem.drop (dst.off + src.len) := by
+  obtain ⟨out, _, hl, hw, _⟩ := xts_inplace_eq f E2 hf hE2 mem dst src sector mem' hd hs h
+  have hle : dst.len ≥ src.len := by
+    unfold cryptMem at h
+    split at h
+    · cases h
+    · omega
+  subst hw
+  unfold Mem.wr
+  have h1 : (mem.take dst.off).length = dst.off := by simp; omega
+  constructor
+  · rw [List.append_assoc, List.take_append_of_le_length (by omega), List.take_of_length_le (by omega)]
+  · rw [hl]
+    have : dst.off + src.len = (mem.take dst.off ++ out).length := by simp [hl]; omega
+    conv => lhs; rw [this, List.drop_left']
+    rw [← this]
+
 /-- the toy block cipher of the harness really is a permutation with `dec` as inverse (so the
     round-trip theorem applies to the toy runs) -/
 theorem toy_dec_enc_byte (x k : UInt8) : ((((x ^^^ k) * 5 + 17) - 17) * 205) ^^^ k = x := by
